@@ -186,6 +186,17 @@ func getName(nodeSet NodeSet, ok bool, nameType nameType) (Result, error) {
 		return String(fmt.Sprintf("{%s}%s", n.Space(), n.Local())), nil
 	}
 
+	if nameType == namespaceOnly {
+		return String(""), nil
+	}
+
+	switch n := firstNode.Node().(type) {
+	case node.ProcInst:
+		return String(n.Target()), nil
+	case node.Namespace:
+		return String(n.Prefix()), nil
+	}
+
 	return String(""), nil
 }
 
